@@ -285,6 +285,19 @@ def main():
     if len(set(dn)) != len(dn):
         fail("two option dictionaries with the same name")
 
+    # ---- module-level function-pointer type aliases  NAME = CFUNCTYPE(...)
+    functypes = {}
+    for m in mods:
+        for st in m.tree.body:
+            if isinstance(st, ast.Assign) and len(st.targets) == 1 and isinstance(st.targets[0], ast.Name) and isinstance(st.value, ast.Call):
+                f = st.value.func
+                fname = f.id if isinstance(f, ast.Name) else (f.attr if isinstance(f, ast.Attribute) else None)
+                if fname == "CFUNCTYPE":
+                    nm = st.targets[0].id
+                    if nm in functypes:
+                        fail("two function-pointer type aliases named %s" % nm)
+                    functypes[nm] = (m.name, type_expr(st.value, classes, m))
+
     # ---- properties and setter targets
     props = []
     for cname in order:
@@ -312,6 +325,35 @@ def main():
                         if not st.args.args:
                             fail("%s.%s setter without self" % (cname, st.name))
                         selfname = st.args.args[0].arg
+                        p.setdefault("wrappers", []); p.setdefault("ssyms", []); p.setdefault("named", [])
+                        argname = st.args.args[1].arg if len(st.args.args) > 1 else None
+                        for n in ast.walk(st):
+                            # branches  if <arg> == "name": ... clibrebound.<symbol> ...   (built-in callbacks stored by name)
+                            if isinstance(n, ast.If) and isinstance(n.test, ast.Compare) and len(n.test.ops) == 1 \
+                                    and isinstance(n.test.ops[0], ast.Eq) and isinstance(n.test.left, ast.Name) and n.test.left.id == argname \
+                                    and isinstance(n.test.comparators[0], ast.Constant) and isinstance(n.test.comparators[0].value, str):
+                                syms = []
+                                for b in n.body:
+                                    for x in ast.walk(b):
+                                        if isinstance(x, ast.Attribute) and isinstance(x.value, ast.Name) and x.value.id == "clibrebound" \
+                                                and x.attr not in syms:
+                                            syms.append(x.attr)
+                                if syms:
+                                    p["named"].append((n.test.comparators[0].value, syms))
+                        for n in ast.walk(st):
+                            if isinstance(n, ast.Call):
+                                f = n.func
+                                fname = f.id if isinstance(f, ast.Name) else (f.attr if isinstance(f, ast.Attribute) else None)
+                                if fname == "CFUNCTYPE":
+                                    fail("%s.%s setter builds a CFUNCTYPE inline (not supported)" % (cname, st.name))
+                                if isinstance(f, ast.Name) and f.id in functypes and f.id not in p["wrappers"]:
+                                    p["wrappers"].append(f.id)
+                                if fname == "cast" and len(n.args) == 2 and isinstance(n.args[1], ast.Name) and n.args[1].id in functypes \
+                                        and n.args[1].id not in p["wrappers"]:
+                                    p["wrappers"].append(n.args[1].id)
+                            if isinstance(n, ast.Attribute) and isinstance(n.value, ast.Name) and n.value.id == "clibrebound" \
+                                    and n.attr not in p["ssyms"]:
+                                p["ssyms"].append(n.attr)
                         for n in ast.walk(st):
                             tg = []
                             if isinstance(n, ast.Assign): tg = n.targets
@@ -408,6 +450,18 @@ def main():
     w(";\n".join(" (%s, %s, [%s])" % (qs(cn), qs(p), "; ".join(qs(t) for t in d.get("reads", [])))
                  for cn, pl in props for p, d in pl.items()))
     w("].")
+    w("(* function-pointer type aliases: name, module, type *)")
+    w("Definition py_functypes : list (string * string * pytype) := [")
+    w(";\n".join(" (%s, %s, %s)" % (qs(nm), qs(v[0]), v[1]) for nm, v in functypes.items())); w("].")
+    w("(* class, property, aliases the SETTER wraps its argument with / casts to, clibrebound symbols the setter references *)")
+    w("Definition py_setter_callbacks : list (string * string * list string * list string) := [")
+    w(";\n".join(" (%s, %s, [%s], [%s])" % (qs(cn), qs(p), "; ".join(qs(x) for x in d.get("wrappers", [])),
+                                            "; ".join(qs(x) for x in d.get("ssyms", [])))
+                 for cn, pl in props for p, d in pl.items() if d.get("wrappers") or d.get("ssyms"))); w("].")
+    w("(* class, property, name, symbols: setter branches  if value == name: ... clibrebound.symbol ... *)")
+    w("Definition py_named_callbacks : list (string * string * string * list string) := [")
+    w(";\n".join(" (%s, %s, %s, [%s])" % (qs(cn), qs(p), qs(nm), "; ".join(qs(x) for x in sy))
+                 for cn, pl in props for p, d in pl.items() for nm, sy in d.get("named", []))); w("].")
     w("(* class, property, accessor, statement, guarded: every return/break/continue inside a `for` body of an accessor, and")
     w("   whether an `if` lies between the innermost `for` and it *)")
     le = []
